@@ -788,7 +788,7 @@ func main() {
 	for i, n := 0, o.Scale(3, 40); i < n; i++ {
 		longJobs = append(longJobs, &longJob{seed: rnd.Int63()})
 	}
-	for i, n := 0, o.Scale(3, 20); i < n; i++ {
+	for i, n := 0, o.Scale(2, 20); i < n; i++ {
 		longJobs = append(longJobs, &longJob{seed: rnd.Int63(), pq: true})
 	}
 	thorough := o.Tier == "thorough"
@@ -845,7 +845,7 @@ func main() {
 		}
 	}
 	extra := map[string]interface{}{"hangs_observed": hangs.Load(), "watchdog": watchdog.String()}
-	cq.Write(o, "jb: histories of 8..120 public-API calls (push in order/loss/late/duplicates of head, tail, any; all pops, peeks, "+
+	cq.Write(o, "jb: histories of 8..600 public-API calls (push in order/loss/late/duplicates of head, tail, any; all pops, peeks, "+
 		"SetPlayoutHead, Clear) for minimum start counts {0,1,2,3,5,8,50}; distinct by content; non-trivial = at least two pushes "+
 		"and one packet returned; pq: 5..54 direct PriorityQueue calls with priorities drawn from a window of 3..14 values "+
 		"(many duplicates), priority independent of the packet's own sequence number; non-trivial = one packet returned; "+
